@@ -800,8 +800,39 @@ pub fn run_c06(sim: &Sim, prop: &str, tier: Tier) -> Outcome {
         }
     }
     let mut p2 = mk_probe(2);
-    if packet_eq(&p1, &p2) {
+    // mostly distinct probes; sometimes the very same packet twice (a sender that repeats
+    // itself), or the second probe differs from the first in one respect only
+    let identical_probes = match sim.draw(12) {
+        0 => {
+            p2 = p1.clone();
+            sim.probe("identical_probes");
+            true
+        }
+        1 => {
+            p2 = p1.clone();
+            match sim.draw(3) {
+                0 => p2.is_error = !p2.is_error,
+                1 => p2.device_address = cfg.addrs[sim.draw(3) as usize],
+                _ => {
+                    if let Some(b) = p2.data.last_mut() {
+                        *b ^= 0x80;
+                    }
+                }
+            }
+            packet_eq(&p1, &p2)
+        }
+        _ => false,
+    };
+    if packet_eq(&p1, &p2) && !identical_probes {
         p2.data.push(0xa5);
+    }
+    // sometimes the prefix ends with a complete copy of the first probe (the same packet was
+    // sent before, successfully or not: repeating a packet is ordinary traffic)
+    if sim.chance(8) {
+        if let Err(e) = clean_packet_items(kind, &p1, Tag::Prefix, &mut items) {
+            return enc_fail(e);
+        }
+        sim.count("prefix_ends_with_copy_of_first_probe");
     }
     if let Err(e) = clean_packet_items(kind, &p1, Tag::Probe(1), &mut items) {
         return enc_fail(e);
@@ -852,6 +883,10 @@ pub fn run_c06(sim: &Sim, prop: &str, tier: Tier) -> Outcome {
         )
     });
     let restart_pct = sim.pick(&[0u32, 0, 10, 40]);
+    // rarely: one very long "no data yet" burst at one unit position near or inside the probes
+    // (inside a USART frame a wait the receiver must sit out; between frames a long pause)
+    let long_burst = if sim.chance(1) { sim.pick(&[12_000u32, 70_000, 150_000]) } else { 0 };
+    let long_burst_at = sim.draw(64) as usize;
 
     let mut rx = new_receiver(sim, kind, &wire, &back);
     let sig = |what: &str| format!("{}:{}", kind.name(), what);
@@ -861,7 +896,15 @@ pub fn run_c06(sim: &Sim, prop: &str, tier: Tier) -> Outcome {
     let mut n_frames = 0usize;
     for (phase, phase_items) in phases.iter().enumerate() {
         let probe_phase = two_phase && phase == 1;
+        let units_before_load = wire.borrow().len();
         let loaded = load(sim, &wire, phase_items);
+        if long_burst > 0 && (probe_phase || !two_phase) {
+            // position: counted from a little before the first probe frame
+            let probes_at = if two_phase { units_before_load } else { loaded.probe_start_unit.min(wire.borrow().len()) };
+            let pos = (probes_at + long_burst_at).saturating_sub(16).min(wire.borrow().len().saturating_sub(1));
+            wire.borrow_mut().forced_wb = Some((pos, long_burst));
+            sim.probe("long_no_data_burst_near_probes");
+        }
         frame_tags.extend(loaded.frame_tags.iter().copied());
         n_frames = frame_tags.len();
         // where the probes start on the wire (one-phase runs)
@@ -1006,6 +1049,8 @@ pub fn run_c06(sim: &Sim, prop: &str, tier: Tier) -> Outcome {
     if !(ok_both || ok_second) {
         let what = if probe_oks.iter().any(|p| !packet_eq(p, &p1) && !packet_eq(p, &p2)) {
             "altered-or-stitched"
+        } else if identical_probes && probe_oks.len() == 1 {
+            "one-of-two-identical-probes-lost-silently"
         } else if !probe_oks.iter().any(|p| packet_eq(p, &p2)) {
             "second-probe-lost"
         } else if probe_oks.len() == 1 {
